@@ -25,6 +25,9 @@ func init() {
 			"allocator as values; float64 rounding of 2^n for n < 62 (exact).",
 		Run: runC11,
 		Mutants: []Mutant{
+			{Name: "failed-write-releases-the-reservation", File: "controller/main.go",
+				Old: "if err := c.client.UpdateStatus(svc); err != nil {",
+				New: "if err := c.client.UpdateStatus(svc); err != nil {\n\t\t\tc.ips.Unassign(name)", Expect: "HANDLER-ERR"},
 			{Name: "status-skipped-from-remembered-counters", File: "internal/k8s/controllers/pool_status_controller.go",
 				Old: "\tc := r.CountersFetcher(pool.Name)\n", New: "\tc := r.CountersFetcher(pool.Name)\n\tif c.AssignedIPv4 == 0 && c.AssignedIPv6 == 0 {\n\t\treturn ctrl.Result{}, nil\n\t}\n", Expect: "FIELDMAP"},
 			{Name: "non-balancer-with-empty-status-keeps-address", File: "controller/service.go",
@@ -73,6 +76,11 @@ func runC11(p *chk.Prog, r *chk.Report) {
 	// by assign / Unassign, and a successful Assign went through them (OWN-ALLOC, ASSIGN-COMMITS, shared with C01)
 	assignCommitsRule(p, r)
 	c01OwnAlloc(p, r)
+	// a failed status write leaves the allocator's memory alone, and addresses are released only at the reviewed sites
+	// (HANDLER-ERR, shared with C06; UNASSIGN-OWN-KEY, shared with C03): a reservation forgotten while the cluster still
+	// records it is handed out twice and counted once
+	c06Handler(p, r)
+	c03Unassign(p, r)
 }
 
 var allocMaps = []string{"allocated", "sharingKeyForIP", "portsInUse", "servicesOnIP", "poolIPsInUse", "poolIPV4InUse", "poolIPV6InUse"}
@@ -143,7 +151,9 @@ func c11Sibling(p *chk.Prog, r *chk.Report) {
 			}
 		}, func(v4, v6 chk.Guard) chk.Guard { return chk.NoGuard }},
 		{"sharing-key", func(ip func(ast.Expr) bool) func(ast.Node) bool {
-			return as.IsAssignPat("RECV.sharingKeyForIP[IP.String()]", "&AL.key", chk.H("IP", ip), chk.H("AL", al))
+			byPtr := as.IsAssignPat("RECV.sharingKeyForIP[IP.String()]", "&AL.key", chk.H("IP", ip), chk.H("AL", al))
+			byVal := as.IsAssignPat("RECV.sharingKeyForIP[IP.String()]", "AL.key", chk.H("IP", ip), chk.H("AL", al))
+			return func(n ast.Node) bool { return byPtr(n) || byVal(n) }
 		}, func(v4, v6 chk.Guard) chk.Guard { return chk.NoGuard }},
 		{"in-use", func(ip func(ast.Expr) bool) func(ast.Node) bool {
 			return isIncDec(as, "RECV.poolIPsInUse[AL.pool][IP.String()]", token.INC, chk.H("IP", ip), chk.H("AL", al))
